@@ -82,4 +82,34 @@ theorem handlerObserve_is_source (P : Env Val) (hl : P.legacy = false) (s : St V
   · simp only [Bool.not_eq_true] at hc
     simp [handlerProg, exec, evalS, lookupS, cacheKey, evalV, evalC, lookupV, popCache, popOld, hc, hl]
 
+/-- `obj.p = x` / `del obj.p` of the model = what the C handlers installed by
+`_trait_set_property` do (`setattr_propertyN` selected by the setter's arity
+without a validator; `setattr_validate_property` → `traitd->validate` → the
+same `setattr_propertyN` as `post_setattr`, with the validated value, with one). -/
+theorem setProp_is_source (P : Env Val) (hn : P.setN ≤ 3) (s : St Val) (a : SetArg) :
+    setProp P s a = setSrc handlers P s a := by
+  have h4 : P.setN = 0 ∨ P.setN = 1 ∨ P.setN = 2 ∨ P.setN = 3 := by omega
+  unfold setSrc setProp
+  cases a with
+  | delete =>
+    cases P.fvalidate with
+    | none => rcases h4 with h | h | h | h <;> simp [h, viaTable, handlers, runSetH]
+    | some fv => simp [handlers]
+  | value x =>
+    cases P.fvalidate with
+    | none =>
+      rcases h4 with h | h | h | h <;> simp only [h, viaTable, handlers, runSetH, callSetter] <;>
+        cases P.fset with
+        | none => simp
+        | some f => simp <;> split <;> simp_all
+    | some fv =>
+      simp only [handlers]
+      cases fv x with
+      | error e => simp
+      | ok y =>
+        rcases h4 with h | h | h | h <;> simp only [h, viaTable, handlers, runSetH, callSetter] <;>
+          cases P.fset with
+          | none => simp
+          | some f => simp <;> split <;> simp_all
+
 end TraitsVerif.Model.PropL
